@@ -350,12 +350,15 @@ func checkC08(p *Prog, r *Report) {
 	ruleStickyState(p, r, "C08", map[string]bool{"cisco": true, "asa": true, "ios": true}, 9)
 	ruleComparatorsSymmetric(p, r, map[string]bool{"cisco": true, "asa": true, "ios": true}, 5)
 	ruleFreshCounters(p, r, "R08.f", map[string]bool{"cisco": true, "panos": true, "nsx": true, "linux": true}, 1)
+	ruleMustCalls(p, r, "R-PH", "C08")
+	ruleRewriteDiscipline(p, r, "R-FLAG", "C08", map[string]bool{"cisco": true}, 20)
 	ruleCutsetMisuse(p, r, map[string]bool{"cisco": true, "asa": true, "ios": true, "panos": true, "nsx": true})
 	r.rule("R-M", "Mark discipline (PAN-OS, NSX): the marks needed / nameOnDevice decide which objects are transferred before the rules that reference them and under which name a rule refers to a group; every store into such a mark lies at a function+site whose controlling conditions are audited rows of tables/guards.tsv (compared by R08.g).")
 	ruleMarkDiscipline(p, r, "R-M", "C08", "panos", []string{".needed", ".nameOnDevice"}, 14)
 	ruleMarkDiscipline(p, r, "R-M", "C08", "nsx", []string{".needed", ".nameOnDevice"}, 6)
 	ruleMarkDiscipline(p, r, "R-M", "C08", "cisco", []string{"cmd.needed", "cmd.ready", "cmd.toDelete"}, 18)
 	ruleMarkDiscipline(p, r, "R-M", "C08", "cisco", []string{"cisco.cmd.name", "cisco.cmd.seq"}, 16)
+	ruleMarkDiscipline(p, r, "R-M", "C08", "cisco", []string{"cisco.State.subCmdOf"}, 5)
 	r.Trusted = []string{"go/ssa, call graph", "audited guard sets in tables/guards.tsv"}
 	r.NotDec = "referential validity of a concrete script; line-number arithmetic beyond the agreement of the constants; duplicate ACL entries"
 }
@@ -694,6 +697,7 @@ func checkC14(p *Prog, r *Report) {
 	ruleJoinedSentAsOnePacket(p, r)
 	ruleStickyState(p, r, "C14", map[string]bool{"cisco": true, "linux": true}, 8)
 	ruleFreshCounters(p, r, "R08.f", map[string]bool{"cisco": true}, 1)
+	ruleRewriteDiscipline(p, r, "R-FLAG", "C14", map[string]bool{"cisco": true}, 20)
 	r.rule("R14.g", "The route delete / replace decisions of linux.diffRoutes keep their audited controlling conditions (tables/guards.tsv rows for C14): an old route is joined with the new one only for the same destination (address and prefix length), and deleted only while it is still marked present and not kept.")
 	ruleGuardTable(p, r, "R14.g", "C14")
 	r.Trusted = []string{"go/ssa, call graph"}
